@@ -78,8 +78,19 @@ def r20_1(ctx):
     fi = f("remove_onetime_do_whiles")
     ctx.check("do-while stripper rewrites the resolved file in place", getpaths(fi.node) == ["HEXAGON_PP_SHORTCODE_RESOLVED_H"] and [U(n.args[1]) for n in ast.walk(fi.node) if isinstance(n, ast.Call) and call_name(n) == "open" and len(n.args) > 1] == ["'w'"],
               "read RESOLVED, write RESOLVED", str(getpaths(fi.node)), fn_where(idx, fi))
-    calls = [U(n) for n in ast.walk(fi.node) if isinstance(n, ast.Call) and call_tail(n) == "replace_do_while_0"]
-    ctx.check("every line goes through replace_do_while_0", calls == ["self.replace_do_while_0(line)"], "res.append(self.replace_do_while_0(line)) for every line", str(calls), fn_where(idx, fi))
+    # for <x> in <file>.readlines(): <list>.append(self.replace_do_while_0(<x>)) ... <file>.writelines(<list>)
+    line_loops = [n for n in ast.walk(fi.node) if isinstance(n, ast.For) and isinstance(n.iter, ast.Call) and call_tail(n.iter) == "readlines" and isinstance(n.target, ast.Name)]
+    shape = "no loop over the file's lines"
+    good = False
+    if len(line_loops) == 1:
+        lp = line_loops[0]
+        apps = [n for n in ast.walk(lp) if isinstance(n, ast.Call) and call_tail(n) == "append" and len(n.args) == 1 and isinstance(n.args[0], ast.Call) and call_tail(n.args[0]) == "replace_do_while_0"
+                and len(n.args[0].args) == 1 and isinstance(n.args[0].args[0], ast.Name) and n.args[0].args[0].id == lp.target.id]
+        skips = [n for n in ast.walk(lp) if isinstance(n, (ast.Continue, ast.Break, ast.If))]
+        written = [U(n.args[0]) for n in ast.walk(fi.node) if isinstance(n, ast.Call) and call_tail(n) == "writelines" and n.args]
+        good = len(apps) == 1 and not skips and written == [U(apps[0].func.value)]
+        shape = f"appends={len(apps)} conditional statements in the loop={len(skips)} written={written}"
+    ctx.check("every line goes through replace_do_while_0", good, "every line of the file is replaced by replace_do_while_0(line), the list of results is written back", shape, fn_where(idx, fi))
     fi = f("postprocess_shortcode")
     calls = [call_name(n.value) for n in fi.node.body if isinstance(n, ast.Expr) and isinstance(n.value, ast.Call)]
     ctx.check("postprocess runs the do-while stripper", calls == ["self.remove_onetime_do_whiles"], "remove_onetime_do_whiles", str(calls), fn_where(idx, fi))
